@@ -582,6 +582,10 @@ func (e *Engine) genFunction(fn *ssa.Function) (fc *fnCtx, err error) {
 		atKeys = append(atKeys, k)
 	}
 	sort.Strings(atKeys)
+	for k := range fc.c.After {
+		atKeys = append(atKeys, "after:"+k)
+	}
+	sort.Strings(atKeys)
 	for _, k := range atKeys {
 		if !fc.atHit[k] {
 			fc.sc.cur = -1
